@@ -281,6 +281,7 @@ func Nitro(wdt float64, subd int, zeit int, g *GlobalVarsMain, l *NitroSharedVar
 	}
 	if subd == 1 {
 		// Aufruf Mineralisations Subroutine
+		vprobe("nitro.mineral", g, zeit, subd, l)
 		mineral(g, l)
 	}
 	if zeit == g.ERNTE[g.AKF.Index] && subd == 1 {
@@ -561,6 +562,7 @@ func Nitro(wdt float64, subd int, zeit int, g *GlobalVarsMain, l *NitroSharedVar
 		}
 	}
 	// ---------- Aufruf N-Verlagerung -------------------------
+	vprobe("nitro.move", g, zeit, subd, wdt, l)
 	nmove(wdt, subd, zeit, g, l)
 	return finishedCycle, nil
 }
